@@ -1,6 +1,7 @@
 import PyPhysim.Proofs.C08
 import PyPhysim.Proofs.C08Matrix
 import PyPhysim.Proofs.C08Links
+import PyPhysim.Proofs.C08Gen
 
 /-!
 # C08 — multi-user channel matrix views stay coherent across any sequence of updates
@@ -501,5 +502,86 @@ example :
        .setW (some [[[2]], [[1]]]), .corrupt [[[1]], [[1]]] [] (some [[10], [20]])]).2.getLast?
       = some (.rx [[[30]], [[33]]] (some [[10], [20]])) := by
   decide
+
+/-! ## second tie to the source: the cache-invalidation structure, by regeneration
+
+`Generated/C08Effects.lean` is re-emitted from `pyphysim/channels/multiuser.py` on every check
+run (`harness/gen/c08.py`): for each of the two classes and each public method / property
+getter / property setter — overrides resolved per class, private helpers and base-class calls
+inlined — the attributes it resets on every normal path, assigns, writes only on some paths, may
+fill lazily and reads; the attributes a fresh object has; what every lazy fill reads.  The
+theorems below compare those tables with the model and prove the invalidation discipline on
+them, so that a dropped / conditional reset, a getter that stops recomputing, or a new cached
+attribute breaks a proof obligation (independently of the seeded correspondence). -/
+section effects
+open PyPhysim.CacheEffects PyPhysim.Generated
+
+/-- The effect table `effect` IS what the model does: for every state, every operation and all
+    arguments, `step` (i) changes no field outside the table (nor the class flag), (ii) leaves a
+    field listed under `fills` as it was or takes it from `None` to a value, and (iii) leaves
+    `None` in every field listed under `clears` whenever the call is accepted. -/
+theorem model_step_has_table_effect (F : Fns α) (st : State α) (op : Op α) :
+    let e := effect st.isExt op.kind
+    let st' := (step Cfg.fixed F st op).1
+    st'.isExt = st.isExt
+    ∧ (∀ f, f ∉ e.touched → f.agree st st')
+    ∧ (∀ f ∈ e.fills, f.agree st st' ∨ (f.isNone st ∧ ¬ f.isNone st'))
+    ∧ ((∀ err, (step Cfg.fixed F st op).2 ≠ .err err) → ∀ f ∈ e.clears, f.isNone st') :=
+  ⟨(step_sameOutside F st op).1.symm, (step_sameOutside F st op).2,
+   fun f hf => step_fillOnly F st op f hf, fun hok f hf => step_clears F st op f hf hok⟩
+
+/-- The dependency table `specDeps` IS what the coherence invariant encodes: `Coherent` is the
+    conjunction of one clause per derived field, and the clause of a derived field reads that
+    field and the fields `specDeps` lists for it, nothing else. -/
+theorem coherence_reads_only_spec_dependencies (F : Fns α) (a b : State α) :
+    (Coherent F a ↔ ∀ f ∈ derivedFlds, clause F f a)
+    ∧ ∀ f, f.agree a b → (∀ g ∈ specDeps f, g.agree a b) → (clause F f a ↔ clause F f b) :=
+  ⟨coherent_iff_clauses F a, fun f hf hd => clause_congr F f a b hf hd⟩
+
+/-- Bridge (i): every generated row of both classes equals (as sets of attributes) the effect of
+    the model operation behind that entry point — same resets, same assignments, same
+    conditional writes, same lazy fills; entry points without a model operation (`calc_Q`,
+    `calc_SINR`, seeding, …) write nothing; every modelled entry point has a row. -/
+theorem generated_effects_match_model :
+    (C08Effects.rows.all rowMatches && entryPointsPresent C08Effects.rows) = true := by
+  decide
+
+omit [Add α] [Mul α] [Zero α] in
+/-- The attributes of a fresh object are exactly the ones the model has a field for (plus the two
+    random generators), `None` exactly where `State.init` has `none`; no entry point touches an
+    attribute that `__init__` does not create.  A new private attribute breaks this. -/
+theorem generated_attributes_known :
+    (initMatches C08Effects.initAttrs && mentionsOnlyInit C08Effects.initAttrs C08Effects.rows) = true
+    ∧ ∀ (e : Bool) (f : Fld), f.isNone (State.init α e) ↔ f ∈ initNone :=
+  ⟨by decide, init_isNone_iff⟩
+
+/-- The lazily filled attributes found in the source are the model's caches, and the attributes
+    each fill (transitively, through the eagerly derived ones) reads are exactly the fields
+    `specDeps` says the cached value is computed from. -/
+theorem generated_fill_reads_match_model : fillsMatch C08Effects.fillReads = true := by
+  decide
+
+/-- Bridge (ii), the sufficiency condition, on the GENERATED tables: every entry point of either
+    class that writes an attribute resets or rewrites — on every normal path — every derived
+    attribute (lazy cache or eagerly recomputed) whose dependency closure, taken from the generated
+    fill read-sets, contains it. -/
+theorem generated_effects_sufficient :
+    sufficient (depsOf C08Effects.fillReads) C08Effects.rows = true := by
+  decide
+
+/-- the condition is not vacuous: `set_pathloss` without the reset of `_big_H_with_pathloss`
+    (the design-round defect of the ExtInt class) violates it, and so does a cache `_foo` of
+    `big_H` that `set_pathloss` does not know -/
+example :
+    sufficient (depsOf C08Effects.fillReads)
+      [{ cls := extCls, name := "set_pathloss", clears := ["_H_with_pathloss"],
+         assigns := ["_pathloss_big_matrix", "_pathloss_matrix"], mayWrite := [], fills := [], reads := [] }] = false
+    ∧ sufficient (depsOf (("MultiUserChannelMatrix", "_foo", ["_big_H_with_pathloss", "_pathloss_matrix"])
+        :: C08Effects.fillReads))
+      [{ cls := plainCls, name := "set_pathloss", clears := ["_H_with_pathloss", "_big_H_with_pathloss"],
+         assigns := ["_pathloss_big_matrix", "_pathloss_matrix"], mayWrite := [], fills := [], reads := [] }] = false := by
+  decide
+
+end effects
 
 end PyPhysim.C08
